@@ -30,6 +30,7 @@ pub uninterp spec fn mconcat(a: int, b: int) -> int;
 #[verifier::external_body] pub proof fn bx_zero_mul(a: int, r: int, c: int)
     ensures nc(a) == r ==> mmul(a, mzero(r, c)) == mzero(nr(a), c), nr(a) == c ==> mmul(mzero(r, c), a) == mzero(r, nc(a)) {}
 #[verifier::external_body] pub proof fn bx_parts(a: int, b: int) ensures mrows(mstack(a, b), 0, nr(a)) == a, mcols(mconcat(a, b), 0, nc(a)) == a {}
+#[verifier::external_body] pub proof fn bx_parts2(a: int, b: int) ensures mrows(mstack(a, b), nr(a), nr(a) + nr(b)) == b, mcols(mconcat(a, b), nc(a), nc(a) + nc(b)) == b {}
 
 /// sums and negatives
 pub uninterp spec fn madd(a: int, b: int) -> int;
